@@ -1104,7 +1104,7 @@ def r_pair(ctx):
                 for flag, other, nm in ((ins, dele, 'insertion'), (dele, ins, 'deletion')):
                     if any(a == flag and p for a, p in conds_):
                         gated[flag] += 1
-                        if any(a != other and any(x == other for x in walk_term(a)) for a, p in conds_ if a != flag):
+                        if any(any(x == other for x in walk_term(a)) for a, p in conds_ if a != flag):
                             run.refute('R-PAIR', g, '%s-term-switched-by-its-own-flag' % nm, nd.lineno,
                                        'the %s term of the score is added under a condition that also involves the other indel flag: '
                                        'with exactly one of has_insertion / has_deletion set the scores differ from the sum of the '
